@@ -750,6 +750,9 @@ func (s *programState) makeAllotment(monetary *big.Int, items []parser.Allotment
 	for i, item := range items {
 		switch allotment := item.(type) {
 		case *parser.RatioLiteral:
+			if allotment.Denominator == nil || allotment.Denominator.Sign() == 0 {
+				return nil, BadPortionParsingErr{Range: allotment.Range, Source: "/0", Reason: "the denominator of a portion cannot be zero"}
+			}
 			rat := allotment.ToRatio()
 			totalAllotment.Add(totalAllotment, rat)
 			allotments = append(allotments, rat)
